@@ -25,8 +25,8 @@ PROPERTY = "C10"
 # rich 9.10.0 as found are repaired there (BARE_BYPASS: 0 is the repaired value; START_GUARD, RESET_SHAPE: 1 is the repaired value)
 BARE_BYPASS = 0   # 1: console.print()/log() without arguments call Console.line() and bypass the render hooks (F19, as found); 0: repaired, fix b373465
 START_GUARD = 1   # 0: as found, Progress.start() calls refresh() unprotected after installing hook / redirection / hidden cursor; 1: repaired, fix 4e4f7e5
-BLANK_FIX = 0     # 0: restore_cursor() goes up `height` rows: a transient display with an empty last frame leaves a blank line
-FLUSH_FIX = 0     # 0: stop() does not flush the FileProxy objects before its last refresh: text pending from print(..., end="") is written after the last frame
+BLANK_FIX = 1     # 0: restore_cursor() goes up `height` rows: a transient display with an empty last frame leaves a blank line
+FLUSH_FIX = 1     # 0: stop() does not flush the FileProxy objects before its last refresh: text pending from print(..., end="") is written after the last frame
 RESET_SHAPE = 1   # 0: as found, stop() keeps _live_render._shape, so a later start() erases rows of finished output; 1: repaired, fix b4577f9
 
 
